@@ -135,10 +135,90 @@ pub mod spec {
             TokenNext::Seal(s) => sig_ok(last_block(t).next_key, seal_payload_v0(last_block(t)), s.0@),
         }
     }
-    pub open spec fn chain_valid(t: SerializedBiscuit, root: PublicKey, legacy_mode: bool) -> bool {
-        &&& authority_ok(t.authority, root)
+    // everything in chain_valid that does not depend on the root key
+    pub open spec fn chain_tail_valid(t: SerializedBiscuit, legacy_mode: bool) -> bool {
         &&& forall|i: int| 0 <= i < t.blocks@.len() ==>
                 block_ok(#[trigger] t.blocks@[i], key_before(t, i), sig_before(t, i), legacy_mode)
         &&& proof_ok(t)
+    }
+    pub open spec fn chain_valid(t: SerializedBiscuit, root: PublicKey, legacy_mode: bool) -> bool {
+        authority_ok(t.authority, root) && chain_tail_valid(t, legacy_mode)
+    }
+
+    // ---- wire form <-> container (what deserialize computes, as a relation)
+    use crate::format::schema;
+    pub open spec fn sk_bytes_of(sk: PrivateKey) -> Seq<u8> {
+        match sk { PrivateKey::Ed25519(k) => k.spec_bytes(), PrivateKey::P256(k) => k.spec_bytes() }
+    }
+    pub open spec fn sk_alg_code(sk: PrivateKey) -> i32 {
+        match sk { PrivateKey::Ed25519(_) => 0i32, PrivateKey::P256(_) => 1i32 }
+    }
+    // `bytes` is an accepted encoding of key `k` (ed25519: the 32 bytes; secp256r1: any SEC1 form)
+    pub open spec fn pk_decodes(k: PublicKey, bytes: Seq<u8>) -> bool {
+        match k { PublicKey::Ed25519(k) => k.spec_decodes(bytes), PublicKey::P256(k) => k.spec_decodes(bytes) }
+    }
+    pub open spec fn pk_proto_rel(p: schema::PublicKey, k: PublicKey) -> bool {
+        p.algorithm == alg_code(k) && pk_decodes(k, p.key@)
+    }
+    pub open spec fn ext_rel(p: Option<schema::ExternalSignature>, e: Option<ExternalSignature>) -> bool {
+        match (p, e) {
+            (None, None) => true,
+            (Some(p), Some(e)) => p.signature@ == e.signature.0@ && pk_proto_rel(p.public_key, e.public_key),
+            _ => false,
+        }
+    }
+    pub open spec fn version_of(v: Option<u32>) -> u32 { match v { Some(v) => v, None => 0u32 } }
+    pub open spec fn block_rel(p: schema::SignedBlock, b: Block) -> bool {
+        &&& b.data@ == p.block@
+        &&& pk_proto_rel(p.next_key, b.next_key)
+        &&& b.signature.0@ == p.signature@
+        &&& ext_rel(p.external_signature, b.external_signature)
+        &&& b.version == version_of(p.version)
+    }
+    pub open spec fn proof_rel(p: schema::Proof, t: TokenNext, last_key: PublicKey) -> bool {
+        match p.content {
+            None => false,
+            Some(schema::proof::Content::NextSecret(v)) =>
+                t is Secret && sk_bytes_of(t->Secret_0) == v@ && sk_alg_code(t->Secret_0) == alg_code(last_key),
+            Some(schema::proof::Content::FinalSignature(v)) => t is Seal && t->Seal_0.0@ == v@,
+        }
+    }
+    // safe_mode: a block carrying an external signature must declare signature version 1
+    pub open spec fn wire_rel(d: schema::Biscuit, t: SerializedBiscuit, safe_mode: bool) -> bool {
+        &&& d.root_key_id == t.root_key_id
+        &&& d.authority.external_signature is None
+        &&& block_rel(d.authority, t.authority)
+        &&& d.blocks@.len() == t.blocks@.len()
+        &&& forall|i: int| 0 <= i < d.blocks@.len() ==> block_rel(#[trigger] d.blocks@[i], t.blocks@[i])
+        &&& safe_mode ==> forall|i: int| 0 <= i < d.blocks@.len() ==>
+                ((#[trigger] d.blocks@[i]).external_signature is Some ==> d.blocks@[i].version == Some(1u32))
+        &&& proof_rel(d.proof, t.proof, last_block(t).next_key)
+    }
+
+    // to_proto: exact field map (the key is written in its canonical encoding; the version field
+    // is absent exactly when the version is 0)
+    pub open spec fn pk_proto_exact(p: schema::PublicKey, k: PublicKey) -> bool {
+        p.algorithm == alg_code(k) && p.key@ == pk_bytes(k)
+    }
+    pub open spec fn ext_exact(p: Option<schema::ExternalSignature>, e: Option<ExternalSignature>) -> bool {
+        match (p, e) {
+            (None, None) => true,
+            (Some(p), Some(e)) => p.signature@ == e.signature.0@ && pk_proto_exact(p.public_key, e.public_key),
+            _ => false,
+        }
+    }
+    pub open spec fn block_exact(p: schema::SignedBlock, b: Block, with_ext: bool) -> bool {
+        &&& p.block@ == b.data@
+        &&& pk_proto_exact(p.next_key, b.next_key)
+        &&& p.signature@ == b.signature.0@
+        &&& if with_ext { ext_exact(p.external_signature, b.external_signature) } else { p.external_signature is None }
+        &&& p.version == (if b.version > 0 { Some(b.version) } else { None::<u32> })
+    }
+    // t2 is t1 with exactly one block added at the end; nothing else changes
+    pub open spec fn appended(t1: SerializedBiscuit, t2: SerializedBiscuit) -> bool {
+        &&& t2.root_key_id == t1.root_key_id
+        &&& t2.authority == t1.authority
+        &&& t2.blocks@.len() == t1.blocks@.len() + 1
+        &&& t2.blocks@.subrange(0, t1.blocks@.len() as int) == t1.blocks@
     }
 }
